@@ -627,6 +627,11 @@ class Interp:
             if len(a) == 1:
                 x = a[0]
                 return Arr((T.smax(0, b),), lambda i: x, T.sort_of(x) if T.is_scalar(x) else "int", kind="list") if T.is_scalar(x) else _abort("list * symbolic", ctx)
+        if name == "Mult" and isinstance(a, tuple) and isinstance(b, int):
+            return a * b
+        if name == "Mult" and isinstance(a, tuple) and len(a) == 1 and T.is_sym(b) and T.is_scalar(a[0]):
+            x = a[0]
+            return Arr((T.smax(0, b),), lambda i: x, T.sort_of(x), kind="tuple")
         if isinstance(a, str) or isinstance(b, str) or isinstance(a, Opaque) or isinstance(b, Opaque):
             return Opaque("string-op")
         if isinstance(a, Rec) or isinstance(b, Rec):
@@ -695,6 +700,14 @@ class Interp:
         raise PathAbort("bitwise xor on integers", self.ctx.cur_line)
 
     def matmul(self, a, b):
+        # X @ diag(d): column scaling (the only matrix product inside the modelled fragment)
+        d = getattr(b, "diag_of", None)
+        if isinstance(a, Arr) and a.ndim == 2 and d is not None:
+            if not N.same_extent(self.ctx, a.shape[1], d.shape[0]):
+                raise PyRaise("ValueError", "matmul: dimension mismatch", self.ctx.cur_line)
+            a_, d_ = N.snap(a), N.snap(d)
+            dt = join_dtype(a.dtype, d.dtype)
+            return Arr(a.shape, lambda i, j: T.mul(a_.fn(i, j), d_.fn(j)), dt)
         raise PathAbort("matrix product (needs Mat abstraction)", self.ctx.cur_line)
 
     def ev_Compare(self, n, env):
